@@ -1284,6 +1284,7 @@ func (f *File) readAt(b []byte, off int64) (int, error) {
 				var n int
 
 				s := <-packet.res
+				vhook("cl.map", uint64(packet.id), uint64(packet.off))
 				resPool.Put(packet.res)
 
 				err := s.err
@@ -1513,6 +1514,7 @@ func (f *File) WriteTo(w io.Writer) (written int64, err error) {
 				var n int
 
 				s := <-readWork.res
+				vhook("cl.map", uint64(readWork.id), uint64(readWork.off))
 				resPool.Put(readWork.res)
 
 				err := s.err
@@ -1732,6 +1734,7 @@ func (f *File) writeAtConcurrent(b []byte, off int64) (int, error) {
 
 			for work := range workCh {
 				s := <-work.res
+				vhook("cl.map", uint64(work.id), uint64(work.off))
 				pool.Put(work.res)
 
 				err := s.err
@@ -1928,6 +1931,7 @@ func (f *File) readFromWithConcurrency(r io.Reader, concurrency int) (read int64
 
 			for work := range workCh {
 				s := <-work.res
+				vhook("cl.map", uint64(work.id), uint64(work.off))
 				pool.Put(work.res)
 
 				err := s.err
